@@ -28,6 +28,7 @@ SCENARIOS = {
     "C07": [("frame-search", ["frame-search"]), ("frame-deep", ["frame-deep", "200000"])],
     "C08": [("frame-search", ["frame-search"]), ("conn-search", ["conn-search"]), ("decimal-search", ["decimal-search", "10000000"])],
     "C17": [("store-closed", ["store-closed"])],
+    "C15": [("server-slots", ["server-slots"]) for _ in range(3)],
     "C16": [("server-shutdown", ["server-shutdown", str(i)]) for i in range(1, 7)],
     "C04": [("store-concurrent", ["store-concurrent", str(i), "1500"]) for i in range(1, 9)],
     "C10": [("frame-search", ["frame-search"]), ("frame-deep", ["frame-deep", "200000"]), ("server-hostile", ["server-hostile"])] + [("server-search", ["server-search", str(i)]) for i in range(4)],
